@@ -25,7 +25,11 @@ func TestVerifDisplay(t *testing.T) {
 		n = 1
 	}
 	for i := 0; i < n && vHangs < 3; i++ { // three calls that never returned settle the verdict
-		bs, frames := vStream(r, res.n(40, 200))
+		maxFrame := res.n(40, 200)
+		if i%7 == 6 {
+			maxFrame = 1023
+		}
+		bs, frames := vStream(r, maxFrame)
 		if i%4 == 3 {
 			bs = vStreamStray(r)
 		}
